@@ -32,7 +32,94 @@ JUDGED = {
 
 
 def shards(tier):
-    return plan_shards(tier, 8 if tier == "quick" else 64)
+    return plan_shards(tier, 8 if tier == "quick" else 64) + [("xw", 0, 0, 0)]
+
+
+# ---------------------------------------------------------------- cross-world joints (contract)
+# The table worlds of the BFS give one joint per single world, so a distribution over several worlds of one variable
+# (P(A @ -C, A @ +C), the objects ID* and ctfTR work with) cannot be valued there.  This slice values them directly: every
+# distinct DSL variable (base name + intervention set) is its own coordinate of one arbitrary positive joint table.
+
+
+def _xw_pool():
+    from y0.dsl import Variable
+
+    A, B, C = Variable("A"), Variable("B"), Variable("C")
+    return [A, A @ -C, A @ +C, B, B @ -C]
+
+
+def _xw_joint(pool, seed):
+    import itertools as itt
+
+    from ..scm import h
+
+    return {vals: 1 + h("xw", seed, vals) % 29 for vals in itt.product((0, 1), repeat=len(pool))}
+
+
+def _xw_eval(e, env, pool, table):
+    from fractions import Fraction as Fr
+
+    from y0.dsl import Fraction, One, Probability, Product
+
+    def joint(vs):
+        idx = [(pool.index(v), env[v]) for v in vs]
+        if len({i for i, _ in idx}) != len(set(idx)):
+            return Fr(0)  # one variable asked to take two values
+        return Fr(sum(w for k, w in table.items() if all(k[i] == x for i, x in idx)), sum(table.values()))
+
+    if isinstance(e, One):
+        return Fr(1)
+    if isinstance(e, Probability):
+        den = joint(e.parents)
+        return joint(tuple(e.children) + tuple(e.parents)) / den
+    if isinstance(e, Fraction):
+        return _xw_eval(e.numerator, env, pool, table) / _xw_eval(e.denominator, env, pool, table)
+    if isinstance(e, Product):
+        out = Fr(1)
+        for x in e.expressions:
+            out *= _xw_eval(x, env, pool, table)
+        return out
+    raise TypeError(f"unexpected node {type(e).__name__} in a contracted fraction")
+
+
+def explore_cross_world(res: Res, seed, only=None):
+    import itertools as itt
+
+    from y0.dsl import P
+    from y0.mutate.contract import contract, recursive_contract
+
+    pool = _xw_pool()
+    table = _xw_joint(pool, seed)
+    envs = [dict(zip(pool, vals)) for vals in itt.product((0, 1), repeat=len(pool))]
+    for num in (c for r in (2, 3) for c in itt.combinations(range(len(pool)), r)):
+        for den in (c for r in (1, 2) for c in itt.combinations(range(len(pool)), r)):
+            frac = P(*[pool[i] for i in num]) / P(*[pool[i] for i in den])
+            for fname, fn in (("contract", contract), ("recursive_contract", recursive_contract)):
+                case = {"cross_world": True, "numerator": list(num), "denominator": list(den), "helper": fname, "expr": str(frac)}
+                if only and (only["numerator"], only["denominator"], only["helper"]) != (list(num), list(den), fname):
+                    continue
+                res.states += 1
+                res.transitions += 1
+                try:
+                    out = fn(frac)
+                except Exception as e:  # noqa
+                    res.violation("contract_cross_world", case, f"{fname}({frac}) raised {type(e).__name__}: {e}")
+                    continue
+                bad = None
+                for env in envs:
+                    try:
+                        got, want = _xw_eval(out, env, pool, table), _xw_eval(frac, env, pool, table)
+                    except Exception as e:  # noqa
+                        bad = f"cannot be valued: {type(e).__name__}: {e}"
+                        break
+                    if got != want:
+                        bad = f"evaluates to {got}, the fraction to {want}"
+                        break
+                if bad:
+                    res.violation("contract_cross_world", case, f"{fname}({frac}) = {out} {bad}")
+                    res.outcomes["cross_world_wrong"] += 1
+                else:
+                    res.outcomes["cross_world_identity_holds"] += 1
 
 
 def describe(tier):
@@ -47,7 +134,9 @@ def describe(tier):
         "bound": "variables A, B, C with 2, 3, 2 values; atoms are joint, conditional, interventional and population-tagged "
         "probabilities, One, Zero; " + "; ".join(parts) + "; "
         + ("two generic table worlds" if tier == "thorough" else "one generic table world")
-        + "; every value assignment of the free variables",
+        + "; every value assignment of the free variables; cross-world slice: contract / recursive_contract on every quotient of a "
+        "joint over 2-3 of the variables {A, A@-C, A@+C, B, B@-C} by a joint over 1-2 of them, valued on one arbitrary positive "
+        "table in which every distinct variable (name + intervention set) is its own coordinate",
         "rule": "state = expression object (dedup by exact structure); transition = one DSL operator / helper call whose "
         "result's value function is compared with the mathematical operation on the arguments' value functions",
         "assumptions": [
@@ -121,6 +210,9 @@ def classify(st, op, desc, rs):
 def work(shard, tier, seed):
     alpha, depth, lo, hi = shard
     res = Res()
+    if alpha == "xw":
+        explore_cross_world(res, seed)
+        return res
     ex = Explorer(alpha, depth, seed, tier=tier)
     ex.run(res, lo, hi, on_state=lambda *a: None, on_transition=on_transition)
     return res
@@ -131,6 +223,9 @@ def replay(case, clause=None):
 
     alpha = case.get("alpha", "a24")
     res = Res()
+    if case.get("cross_world"):
+        explore_cross_world(res, int(os.environ.get("VERIF_SEED", "0") or 0), only=case)
+        return list(res.violations)
     ex = Explorer(alpha, 0, int(os.environ.get("VERIF_SEED", "0") or 0), tier="thorough")
     st = rebuild(case["ops"], alpha)
     from ..exprs import State, menu
